@@ -95,7 +95,7 @@ def drain(what, sig=None):
 
 
 def budget(tier):
-    return {"quick": dict(examples=1200, shards=1), "thorough": dict(examples=2500, shards=16)}[tier]
+    return {"quick": dict(examples=1200, shards=1), "thorough": dict(examples=6000, shards=16)}[tier]
 
 
 # ----------------------------------------------------------------------------------------------
